@@ -26,6 +26,59 @@ const AFTER: [&str; 9] = [
     "disconnect none none",
 ];
 
+pub(super) const IDLE_WAYS: [&str; 4] = ["broker-disconnect", "broker-disconnect-rc", "eof", "ping-timeout"];
+
+/// The handle dies while nothing is queued; then every request is called on it, then `drop`,
+/// a resumed reconnect and a drain.
+pub(super) fn idle_dead(rng: super::Rng, how: &str) -> Drv {
+    let mut cfg = CfgSpec::basic(128, 256);
+    if how == "ping-timeout" {
+        cfg.ka = 2;
+    }
+    let mut d = Drv::new(&cfg, rng);
+    d.split_rx = false;
+    d.connect(&ConnSpec::plain());
+    d.x("poll");
+    match how {
+        "broker-disconnect" => {
+            d.send_raw("disconnect", &wire::disconnect(None));
+            d.go();
+        }
+        "broker-disconnect-rc" => {
+            d.send_raw("disconnect", &wire::disconnect(Some(0x8b)));
+            d.go();
+        }
+        "eof" => d.x("d 251"),
+        _ => {
+            d.tick(1_000_000);
+            d.go();
+            while !d.broker.owed().is_empty() {
+                d.broker.forget(0);
+            }
+            if !d.suspended() {
+                d.x("poll");
+            }
+            d.tick(4_999_999);
+            d.tick(1);
+        }
+    }
+    for line in [
+        "publish 0 0 74 70 -",
+        "publish 1 0 74 70 -",
+        "publish 2 0 74 70 -",
+        "subscribe - 74/0/0/0/0",
+        "unsubscribe - 74",
+        "disconnect none none",
+    ] {
+        d.x(line);
+        d.go();
+    }
+    d.x("drop");
+    d.connect(&ConnSpec { sp: Sp::Fixed(true), rc: 0, props: vec![] });
+    d.finish_benign();
+    d
+}
+
 fn after_calls(d: &mut Drv) {
     for line in AFTER {
         d.x(line);
@@ -123,8 +176,14 @@ pub fn fault(out: &mut Out, count: u64) {
     }
     let count = count as usize;
     let n_timeouts = 6.min(count);
-    let picks = stride(all.len(), count - n_timeouts);
+    let n_idle = IDLE_WAYS.len().min(count - n_timeouts);
+    let picks = stride(all.len(), count - n_timeouts - n_idle);
     let mut idx = 0u64;
+    for how in &IDLE_WAYS[..n_idle] {
+        let d = idle_dead(out.rng(3000 + idx), how);
+        out.emit(idx, "", &format!("scenario=idle-dead-handle fault={how}"), &d);
+        idx += 1;
+    }
     for p in picks {
         let (s, i, inj) = all[p];
         let inj_tag = match inj {
@@ -218,6 +277,10 @@ enum Ending {
     /// A fault in another operation: (operation, decisions before, fault decision).
     OpFault(usize, usize, u8),
     CancelOp(usize, usize),
+    /// `poll` cancelled after the first n bytes of an inbound PUBLISH were read, then `drop`.
+    CancelPartialPublish(usize),
+    /// An outbound packet of this operation is written up to k bytes, then the transport dies.
+    PartialWriteFault(usize, u8, u8),
 }
 
 const GARBLED: [&[u8]; 4] = [
@@ -236,6 +299,12 @@ fn endings() -> Vec<Ending> {
     }
     for n in 0..5 {
         v.push(Ending::CancelPartialConnack(n));
+    }
+    for n in [1usize, 2, 3, 6, 11] {
+        v.push(Ending::CancelPartialPublish(n));
+    }
+    for (op, k, n) in [(0, 1u8, 252u8), (0, 5, 251), (0, 9, 255), (2, 2, 253), (2, 7, 254), (3, 1, 252)] {
+        v.push(Ending::PartialWriteFault(op, k, n));
     }
     for rc in [0x80u8, 0x85, 0x87, 0x8a, 0x95, 0x9f] {
         v.push(Ending::Rejected(rc));
@@ -360,6 +429,24 @@ pub fn reconnect(out: &mut Out, count: u64) {
                 }
                 d.x("cancel");
             }
+            Ending::CancelPartialPublish(n) => {
+                let publish = wire::publish(b"part/ial", Some(21), 1, false, false, &[], b"payload");
+                d.x("poll");
+                d.send_raw("publish1-part", &publish[..n]);
+                d.go();
+                d.x("cancel");
+                d.x("drop");
+            }
+            Ending::PartialWriteFault(op, k, n) => {
+                d.x(OPS[op]);
+                if d.suspended() {
+                    d.x(&format!("d {k}"));
+                }
+                if d.suspended() {
+                    d.x(&format!("d {n}"));
+                }
+                d.x("cancel");
+            }
             Ending::CancelOp(op, before) => {
                 d.x(OPS[op]);
                 for _ in 0..before {
@@ -372,8 +459,8 @@ pub fn reconnect(out: &mut Out, count: u64) {
             }
         }
         // A healthy transport and a conformant broker that kept the session.
-        d.comment("healthy-from-here");
         d.broker.has_session = true;
+        d.comment("healthy-connect");
         let ok = d.connect(&ConnSpec::plain());
         d.drain();
         if ok {
